@@ -268,3 +268,6 @@ def run(ctx):
     # ... and against the targets' files as they are now (targets are mutable; a rebuilt graph must see an added input or output)
     from .c01 import rule_flatten
     rule_flatten(ctx, r5)
+    # "every input that no target produces exists on disk": existence as the snapshot reports it (one stat, the file a path denotes, whatever its time stamp)
+    from .shared import import_rules
+    import_rules(ctx, r5, "C01", only={"R6"})
